@@ -15,6 +15,7 @@ import bounded.tsplib  # noqa: E402
 import bounded.order1d  # noqa: E402
 import bounded.bp_lower_bound  # noqa: E402
 import bounded.instgen  # noqa: E402
+import bounded.text_roundtrip  # noqa: E402
 import contracts.bp_instance  # noqa: E402
 import contracts.order1d  # noqa: E402
 import contracts.tsplib  # noqa: E402
@@ -202,6 +203,15 @@ PLANS["C17"] = Plan(
                  "'can be packed into exactly min_bins bins' is covered through the area/lower-bound pair only"],
 )
 
+PLANS["C19"] = Plan(
+    "C19", "exploration",
+    bounded=[bounded.text_roundtrip.harness],
+    explanation="bounded only: no contract here is decidable by the installed solvers (str.join/split, str(int), np.fromstring, "
+                "moptipy CSV classes); the round-trip contracts from_X(to_X(o)) == o are monitored at run time on generated "
+                "instances, packings, game plans, orderings and heterogeneous result/statistics tables",
+    assumptions=["exploration: finite generated sample, nothing proved"],
+)
+
 PLANS["C14"] = Plan(
     "C14", "proof",
     functions=[E1 + ":__move_down", E1 + ":__move_left", E1 + ":_decode",
@@ -239,6 +249,9 @@ PLANS["C05"] = Plan(
 
 
 META = {
+    "C19": {"text": "round-trip contracts monitored on generated objects and tables (bounded exploration); nothing is called proved",
+            "note": "string/CSV code is outside the VC generator's subset and outside what z3/cvc5 decide (DESIGN.md C19)",
+            "technique": "run-time contract monitor (bounded stand-in)"},
     "C17": {"text": "decode post-condition monitored on a stated finite family of templates/vectors/slack values (bounded); "
                     "clamp of the similarity objective proved",
             "note": "level 'other': one proved clause + bounded stand-in; Hardness not covered",
